@@ -234,6 +234,7 @@ def run_case(case):
         accepted_now = {s["name"]: s["id"] for s in subs1}
         truth = truth_tracked(sim, sched)
         interruption = "kill" if killed else ("error" if r1.rc != 0 else "none")
+        res.obs("interrupted_run", {"fault": f, "rc": r1.rc, "interruption": interruption, "accepted_before": accepted_before, "accepted_in_that_run": accepted_now, "state_files_after": proj.state_files()})
         ctx = {"sched": sched, "fault": f, "rc1": r1.rc, "interruption": interruption, "accepted_in_faulty_run": accepted_now, "accepted_before": accepted_before, "err1": r1.err[-400:]}
 
         def mech(base, involved):
@@ -280,6 +281,7 @@ def run_case(case):
             return res
         subs2 = scenario.submissions_view(sim, seq1)
         names2 = [s["name"] for s in subs2]
+        res.obs("next_run", {"submitted": [(s["name"], s["id"], s["dep_raw"]) for s in subs2], "expected": sorted(want_submit)})
         dup = sorted(n for n in names2 if bview.get(n) in ("submitted", "running"))
         if dup:
             res.violation(mech("duplicate-after-interruption", dup), "targets %s got a second job although their accepted job (%s) is still pending" % (dup, {n: truth[n] for n in dup}), tracked_file=tracked_file, **ctx)
